@@ -527,3 +527,78 @@ Fixpoint amap_eqb (m n : amap) : bool :=
   | (k, v) :: m', (k', v') :: n' => beqb k k' && value_eqb v v' && amap_eqb m' n'
   | _, _ => false
   end.
+
+(* ---- executable equality of declared types (for the stack comparison of function-literal calls) *)
+Definition tyname_eqb (a b : tyname) : bool :=
+  match a, b with
+  | TAny, TAny | TVar, TVar | TInt, TInt | TNum, TNum | TStr, TStr | TBool, TBool | TMap, TMap | TFloat, TFloat
+  | TArr, TArr | TFunct, TFunct => true
+  | _, _ => false
+  end.
+
+(* ---- JSON text of a value: Mlrval.String() of maps and arrays (pkg/mlrval/mlrval_json.go, multi-line formatting):
+   maps one "key": value per line, indented by two spaces per level, {} when empty; arrays of scalars on one line
+   [1, 2], arrays holding a collection one element per line.  Strings with bytes below 0x20 and absent/error elements are
+   outside the fragment (None). *)
+Definition nl : ascii := ascii_of_N 10.
+Definition dq : ascii := ascii_of_N 34.
+Definition bsl : ascii := ascii_of_N 92.
+Definition json_plain (s : bytes) : bool := forallb (fun c => (32 <=? code c)%N) s.
+Fixpoint json_esc (s : bytes) : bytes :=
+  match s with
+  | [] => []
+  | c :: t => if (code c =? 34)%N || (code c =? 92)%N then bsl :: c :: json_esc t else c :: json_esc t
+  end.
+Definition json_quote (s : bytes) : option bytes :=
+  if json_plain s then Some (dq :: json_esc s ++ [dq]) else None.
+Definition spaces (n : nat) : bytes := repeat " "%char n.
+Definition is_scalar (v : value) : bool := match v with VMap _ | VArr _ => false | _ => true end.
+
+Fixpoint json (ind : nat) (v : value) {struct v} : option bytes :=
+  match v with
+  | VInt z => Some (Z_to_bytes z)
+  | VStr s => json_quote s
+  | VBool b => Some (bool_bytes b)
+  | VAbsent | VError => None
+  | VMap [] => Some (B "{}")
+  | VMap m =>
+      match (fix go (m : amap) (first : bool) : option bytes :=
+               match m with
+               | [] => Some []
+               | (k, x) :: t =>
+                   match json_quote k, json (S (S ind)) x, go t false with
+                   | Some jk, Some jx, Some jt =>
+                       Some ((if first then [] else [","%char; nl]) ++ spaces (S (S ind)) ++ jk ++ B ": " ++ jx ++ jt)
+                   | _, _, _ => None
+                   end
+               end) m true with
+      | Some body => Some ("{"%char :: nl :: body ++ nl :: spaces ind ++ B "}")
+      | None => None
+      end
+  | VArr [] => Some (B "[]")
+  | VArr l =>
+      if forallb is_scalar l then
+        match (fix go (l : list value) (first : bool) : option bytes :=
+                 match l with
+                 | [] => Some []
+                 | x :: t => match json ind x, go t false with
+                             | Some jx, Some jt => Some ((if first then [] else B ", ") ++ jx ++ jt)
+                             | _, _ => None
+                             end
+                 end) l true with
+        | Some body => Some ("["%char :: body ++ B "]")
+        | None => None
+        end
+      else
+        match (fix go (l : list value) (first : bool) : option bytes :=
+                 match l with
+                 | [] => Some []
+                 | x :: t => match json (S (S ind)) x, go t false with
+                             | Some jx, Some jt => Some ((if first then [] else [","%char; nl]) ++ spaces (S (S ind)) ++ jx ++ jt)
+                             | _, _ => None
+                             end
+                 end) l true with
+        | Some body => Some ("["%char :: nl :: body ++ nl :: spaces ind ++ B "]")
+        | None => None
+        end
+  end.
